@@ -5,6 +5,7 @@ go 1.23
 require (
 	github.com/jcmturner/goidentity/v6 v6.0.1
 	github.com/jcmturner/gokrb5/v8 v8.0.0
+	github.com/jcmturner/rpc/v2 v2.0.3
 	golang.org/x/crypto v0.6.0
 	pgregory.net/rapid v1.3.0
 )
@@ -14,7 +15,6 @@ require (
 	github.com/jcmturner/aescts/v2 v2.0.0 // indirect
 	github.com/jcmturner/dnsutils/v2 v2.0.0 // indirect
 	github.com/jcmturner/gofork v1.7.6 // indirect
-	github.com/jcmturner/rpc/v2 v2.0.3 // indirect
 	golang.org/x/net v0.7.0 // indirect
 )
 
